@@ -251,6 +251,14 @@ def check_matrix(chk, rng, quick):
             chk.evals(1)
             try:
                 out = mat.meanstress_transform.fkm_goodman(pd.Series({'M': M, 'M2': M / 3}), Rg).to_pandas()
+                # the result is a function of the matrix, not of the order in which its classes are stored
+                perm = list(range(len(mat)))
+                rng.shuffle(perm)
+                outp = mat.iloc[perm].meanstress_transform.fkm_goodman(pd.Series({'M': M, 'M2': M / 3}), Rg).to_pandas()
+                if not (len(outp) == len(out) and close(outp.sort_index().to_numpy(), out.sort_index().to_numpy(), 1e-12)):
+                    chk.violation('transforming a from/to matrix whose classes are stored in another order gives another histogram', {'edges': edges, 'M': M, 'R_goal': Rg, 'counts': counts, 'row_permutation': perm},
+                                  out.sort_index().tolist(), outp.sort_index().tolist(), part='matrix')
+                    continue
                 if not close(out.sum(), sum(counts), 1e-12):
                     chk.violation('transforming a from/to matrix does not conserve the total number of cycles', {'edges': edges, 'M': M, 'R_goal': Rg, 'counts': counts}, sum(counts), float(out.sum()), part='matrix')
                 else:
